@@ -87,8 +87,39 @@ def alias_family():
     return out
 
 
+def multi_ref_family():
+    """the same imported subtree referenced several times in one importer, one of the references on a key that has a
+    base from a sibling import (so it is merged in place): the other references and ${imports.b} must not change"""
+    out = []
+    bobj = ("obj", [("nested", ("obj", [("own", ("num", "1"))])), ("empty", ("obj", [])), ("l", ("arr", [("obj", [])]))])
+    for sib in range(3):
+        sv = [("obj", [("nested", ("obj", [("extra", ("num", "2"))])), ("empty", ("obj", [("debug", ("bool", True))]))]),
+              ("obj", [("own", ("num", "5")), ("more", ("num", "6"))]),
+              ("obj", [("obj", ("obj", [("nested", ("obj", [("extra", ("num", "3"))]))]))])][sib]
+        for order in (["x", "b"], ["b", "x"], ["x", "b", "d"]):
+            for first in range(3):
+                refs = [("q", ("sym", [("name", "imports"), ("name", "b"), ("name", "obj")])),
+                        ("r", ("sym", [("name", "imports"), ("name", "b"), ("name", "obj"), ("name", "nested")])),
+                        ("w", ("sym", [("name", "imports"), ("name", "b")]))]
+                refs = refs[first:] + refs[:first]
+                envs = {"b": {"imports": [], "values": [("obj", bobj), ("opts", ("obj", []))]},
+                        "x": {"imports": [], "values": [("q", sv), ("r", sv), ("w", sv), ("opts", ("obj", [("debug", ("bool", True))]))]},
+                        "d": {"imports": [("b", True)], "values": []}}
+                rv = list(refs) + [("q2", ("sym", [("name", "imports"), ("name", "b"), ("name", "obj")]))]
+                seen = []
+                for m in sorted(set(order)):
+                    rv.append(("seen_" + m, ("sym", [("name", "imports"), ("name", m)])))
+                    seen.append(("seen_" + m, m))
+                envs["root"] = {"imports": [(m, True) for m in order], "values": rv}
+                c = G.case_from_graph(envs, "root")
+                c["provs"] = {}
+                c["seen"] = seen
+                out.append(c)
+    return out
+
+
 def gen(rng, tier):
-    cases = alias_family()
+    cases = alias_family() + multi_ref_family()
     n = 2500 if tier == "thorough" else 300
     for i in range(n):
         r = rng.fork("g%d" % i)
